@@ -223,6 +223,8 @@ def run(ctx, tier):
             idxs = [j for j, x in enumerate(a) if type(x) is float or isinstance(x, np.floating)]
             if not idxs:
                 continue
+            if any(type(x) is int and abs(x) > 2 ** 53 for x in a):
+                continue      # an int beyond 2**53 next to a 0-d float64 array is compared in float64 by numpy itself - not judged
             base = probe.call(fn, *_copy(a), **_copy(k))
             arrs = list(_copy(a))
             for j in idxs:
